@@ -36,19 +36,19 @@ type Loc struct {
 }
 
 type Frame struct {
-	vc       *VC
-	fn       *ssa.Function
-	id       int
-	regs     map[ssa.Value]Value
-	parent   *Frame
-	depth    int
-	params   []Value
-	freeVars []Value
-	vars     map[string]scopeVar // parameter names -> entry values
-	entry    *State
-	top      bool // the function under verification
-	callOrd  map[string]int
-	loops    map[*ssa.BasicBlock]*loopInfo
+	vc              *VC
+	fn              *ssa.Function
+	id              int
+	regs            map[ssa.Value]Value
+	parent          *Frame
+	depth           int
+	params          []Value
+	freeVars        []Value
+	vars            map[string]scopeVar // parameter names -> entry values
+	entry           *State
+	top             bool // the function under verification
+	callOrd         map[string]int
+	loops           map[*ssa.BasicBlock]*loopInfo
 	pendingBindings []Value
 }
 
